@@ -222,9 +222,12 @@ class ShapelyBoundary(BoundaryDomain):
             n = self.compute_n_from_density(d, params)
         n = self.domain._compute_number_of_points(n, None, params)
         line_points = torch.rand(n, device=device) * self.domain.polygon.boundary.length
-        return self._transform_points_to_boundary(
+        points = self._transform_points_to_boundary(
             n, torch.sort(line_points).values, device
         )
+        # the points are ordered along the boundary, shuffle them so that every
+        # single row is uniformly distributed on the whole boundary
+        return points[torch.randperm(n, device=device),]
 
     def sample_grid(self, n=None, d=None, params=Points.empty(), device="cpu"):
         if d:  # the density refers to the length of the boundary, not the area
